@@ -311,7 +311,7 @@ theorem seg_cons {d : List Nat} {a b : Nat} (h1 : a < b) (h2 : a < d.length) :
 theorem seg_length {d : List Nat} {a b : Nat} (h : b ≤ d.length) : (seg d a b).length = b - a := by
   unfold seg; rw [List.length_take, List.length_drop]; omega
 
-theorem seg_drop {d : List Nat} {a b : Nat} (h1 : a ≤ b) (h2 : b ≤ d.length) :
+theorem seg_drop {d : List Nat} {a b : Nat} (h1 : a ≤ b) (_h2 : b ≤ d.length) :
     d.drop a = seg d a b ++ d.drop b := by
   unfold seg
   rw [show d.drop b = (d.drop a).drop (b - a) by rw [List.drop_drop]; congr 1; omega, List.take_append_drop]
@@ -399,7 +399,7 @@ theorem contScan_string (l r : Nat) : ∀ (s : List Nat) (e : Bool) (i k : Nat),
         obtain ⟨j, hj, rfl⟩ := h
         subst h5
         simp only [List.take_succ_cons, contScan, contStep, show ((0x5C : Nat) == 0x22) = false by decide,
-          show ((0x5C : Nat) == 0x5C) = true by decide, Bool.false_and, Bool.not_false, Bool.and_true,
+          show ((0x5C : Nat) == 0x5C) = true by decide, Bool.not_false, Bool.and_true,
           Bool.false_eq_true, if_false, if_true, ih true j k hj, shiftR]
       · rw [if_neg h5] at h
         have e5 : (c == 0x5C) = false := by simpa using h5
